@@ -292,8 +292,22 @@ func cmdCheck(id string, tier string, replayPath string) int {
 			// to the smallest window of consecutive runs ending at the failing one
 			confirmed := false
 			if len(sv.Tape) > 0 {
-				if f, _, err := replayOnce(bin, id, sv.Tape); err == nil && f != nil && f.Viol.Class == sv.Viol.Class {
-					confirmed = true
+				for attempt := 0; attempt < 2 && !confirmed; attempt++ {
+					if f, _, err := replayOnce(bin, id, sv.Tape); err == nil && f != nil && f.Viol.Class == sv.Viol.Class {
+						confirmed = true
+					}
+				}
+				if !confirmed && len(v.Tape) > 0 {
+					// the minimised tape does not reproduce: fall back to the tape as recorded
+					if f, _, err := replayOnce(bin, id, v.Tape); err == nil && f != nil && f.Viol.Class == v.Viol.Class {
+						confirmed = true
+						sv = f
+						sv.I, sv.Seed = v.I, v.Seed
+						if len(sv.Tape) == 0 {
+							sv.Tape = v.Tape
+						}
+						rf.Tape, rf.Trace, rf.Schedule, rf.Detail, rf.Key = sv.Tape, sv.Sample, sv.Sched, sv.Viol.Detail, sv.Viol.Key
+					}
 				}
 			}
 			if !confirmed {
